@@ -41,7 +41,8 @@ Inductive wlabel :=
 | WCheck                      (* receiver: maybe_changed *)
 | WWake                       (* receiver: the awaited Notified completes; the loop goes round *)
 | WLook                       (* receiver: borrow_and_update (outside changed()) *)
-| WDropRx.
+| WDropRx
+| WSubscribe.                 (* a Sender handle re-creates the receiver of a dropped slot: it starts at the current version *)
 
 Definition is_live_tx (s : sph) : bool := match s with SIdle | SPending => true | _ => false end.
 Definition is_notifier (s : sph) : bool := match s with SPending | SClosing => true | _ => false end.
@@ -99,6 +100,10 @@ Definition wstep (w : wm) (i : nat) (l : wlabel) : option wm :=
     | Some (RGone, _) => None
     | Some (_, s) => Some (with_rx w (set_nth (w_rx w) i (RGone, s)))
     | None => None end
+  | WSubscribe =>
+    match nth_error (w_rx w) i with
+    | Some (RGone, _) => Some (with_rx w (set_nth (w_rx w) i (RIdle, w_ver w)))
+    | _ => None end
   end.
 
 Fixpoint wrun (w : wm) (steps : list (nat * wlabel)) : option wm :=
